@@ -164,7 +164,9 @@ pub fn run_case(c: &AffineCase) -> Res {
             // the accept decision u <= mu/(mu+x) may flip; the other root is mu^2/x
             let mu1 = t.p[0];
             let other = mu1 * mu1 / f1;
-            if (other - expect).abs() <= tol.max(64.0 * eps * other.abs().max(expect.abs())) {
+            // mu^2/x inherits the *relative* error allowed for x (tol / |x|)
+            let rel = if f1 != 0.0 { tol / f1.abs() } else { 0.0 };
+            if (other - expect).abs() <= tol.max(64.0 * eps * other.abs().max(expect.abs())).max(rel * other.abs()) {
                 res.flip = true;
                 return res;
             }
